@@ -241,16 +241,31 @@ def gen_lake():
 
 
 def gen_arith(pid):
-    """Run the arithmetic translator for translate/arith_<pid>.json (if any).
+    """Run the translators of property `pid`: translate/arith_<pid>.json through
+    gen_arith.py (-> Generated/Arith<pid>.lean) and, if present, the structural
+    translator translate/gen_<pid>.py (-> Generated/Struct<pid>.lean).
     Returns (ok, message)."""
-    spec = os.path.join(VERIF, "translate", f"arith_{pid}.json")
-    if not os.path.exists(spec):
-        return True, ""
-    out = os.path.join(LEAN, "Pyunicorn", "Generated", f"Arith{pid}.lean")
     env = dict(os.environ, VERIF_REPO=REPO)
-    rc, msg = _run([sys.executable, os.path.join(VERIF, "translate", "gen_arith.py"),
-                    spec, out], env=env)
-    return rc == 0, msg
+    ok, msgs = True, []
+    spec = os.path.join(VERIF, "translate", f"arith_{pid}.json")
+    if os.path.exists(spec):
+        out = os.path.join(LEAN, "Pyunicorn", "Generated", f"Arith{pid}.lean")
+        rc, msg = _run([sys.executable, os.path.join(VERIF, "translate", "gen_arith.py"),
+                        spec, out], env=env)
+        ok &= rc == 0
+        msgs.append(msg)
+    extra = os.path.join(VERIF, "translate", f"gen_{pid}.py")
+    if os.path.exists(extra):
+        out = os.path.join(LEAN, "Pyunicorn", "Generated", f"Struct{pid}.lean")
+        rc, msg = _run([sys.executable, extra, out], env=env)
+        ok &= rc == 0
+        msgs.append(msg)
+    return ok, "\n".join(m for m in msgs if m)
+
+
+def has_translators(pid):
+    return any(os.path.exists(os.path.join(VERIF, "translate", f))
+               for f in (f"arith_{pid}.json", f"gen_{pid}.py"))
 
 
 def driver_path(pid):
@@ -354,9 +369,9 @@ class Ctx:
         relpath = relpath or (module.replace(".", "/") + ".lean")
         gen_lake()
         ok, msg = gen_arith(self.pid)
-        if os.path.exists(os.path.join(VERIF, "translate", f"arith_{self.pid}.json")):
-            self.obligation("translator gen_arith regenerates lean/Pyunicorn/Generated/"
-                            f"Arith{self.pid}.lean from /repo", "translator", ok, msg)
+        if has_translators(self.pid):
+            self.obligation("translators regenerate lean/Pyunicorn/Generated/"
+                            f"{{Arith,Struct}}{self.pid}.lean from /repo", "translator", ok, msg)
         hits = banned_tokens(lean_files())
         self.obligation("no sorry/axiom/native_decide in lean/", "grep",
                         not hits, "\n".join(hits))
